@@ -4,6 +4,7 @@ package nextroute
 
 import (
 	"fmt"
+	"sort"
 
 	"github.com/nextmv-io/nextroute/common"
 	"gonum.org/v1/gonum/spatial/kdtree"
@@ -106,12 +107,38 @@ func (m modelStopsDistanceQueryImpl) NearestStops(
 	}
 	keep := kdtree.NewNKeeper(n + 1)
 	m.tree.NearestSet(keep, modelStopWrapper{stop: stop})
-	stops := make(ModelStops, 0, n)
+	// The pivots of the tree are chosen with the help of a process-wide
+	// random source: which of several equally distant stops are found, and in
+	// which order, differs from one model to the next built from the same
+	// data. Take every stop within the distance of the farthest one found and
+	// order them by distance and index.
+	farthest := 0.0
 	for _, c := range keep.Heap {
-		s := c.Comparable.(modelStopWrapper).stop
-		if s.Index() == stop.Index() {
+		if c.Comparable != nil && c.Dist > farthest {
+			farthest = c.Dist
+		}
+	}
+	within := kdtree.NewDistKeeper(farthest)
+	m.tree.NearestSet(within, modelStopWrapper{stop: stop})
+	found := make([]kdtree.ComparableDist, 0, len(within.Heap))
+	for _, c := range within.Heap {
+		if c.Comparable == nil || c.Comparable.(modelStopWrapper).stop.Index() == stop.Index() {
 			continue
 		}
+		found = append(found, c)
+	}
+	sort.Slice(found, func(i, j int) bool {
+		if found[i].Dist != found[j].Dist {
+			return found[i].Dist < found[j].Dist
+		}
+		return found[i].Comparable.(modelStopWrapper).stop.Index() <
+			found[j].Comparable.(modelStopWrapper).stop.Index()
+	})
+	if len(found) > n {
+		found = found[:n]
+	}
+	stops := make(ModelStops, 0, len(found))
+	for _, c := range found {
 		stops = append(stops, c.Comparable.(modelStopWrapper).stop)
 	}
 	return stops, nil
